@@ -18,6 +18,9 @@ def ev_term(t, env):
     return t[1]
   if t[0] == 'v':
     return env[t[1]]
+  if t[0] == 'b':
+    x, y = ev_term(t[1], env), ev_term(t[3], env)
+    return x + y if t[2] == '+' else (x - y if t[2] == '-' else x * y)
   a = env[t[1]]
   if t[2] == '+':
     return a + t[3]
